@@ -277,12 +277,13 @@ def check_property(prop, tier='quick', seed=0):
             from . import replay
             rg = {'obligations': 0, 'discharged': 0, 'backend': 'regression inputs of fixed findings (bounded stand-in)', 'samples': [], 'bounded': [], 'cmds': []}
             for case in regs:
-                w = replay.run_case(verus.REPO, case, seed, 300, 'dev', timeout=300)
+                r_iters, r_to = (300, 300) if tier != 'thorough' else (100000, 1200)
+                w = replay.run_case(verus.REPO, case, seed, r_iters, 'dev', timeout=r_to)
                 if w and str(w.get('failing_input', '')).startswith('timeout after'):
-                    rg['bounded'].append('regression case %s: stopped after 300 s (inconclusive)' % case)
+                    rg['bounded'].append('regression / probe case %s: stopped after %d s (inconclusive)' % (case, r_to))
                     w = None
                 else:
-                    rg['bounded'].append('regression case %s (dev profile, its fixed inputs + 300 structured random inputs): %s' % (case, 'FAILING INPUT' if w else 'no failing input'))
+                    rg['bounded'].append('regression / probe case %s (dev profile, its fixed inputs + %d structured random inputs): %s' % (case, r_iters, 'FAILING INPUT' if w else 'no failing input'))
                 if w:
                     f = Failure(prop, 'regression::' + case, 'regression', case, w.get('failing_input', '')[:200],
                                 'an input recorded with a fixed finding of %s fails again on the real code' % prop, engine='replay')
